@@ -245,6 +245,9 @@ pub fn record(output: &str) {
             if obstacle.is_none() { continue; }
         }
         let cell = cell_full(obstacle, if k % 4 == 3 || obstacle_class == "fragile" { 10_000 } else { 0 }, j6_limit, obstacle_class == "branch-blocking", if obstacle_class == "fragile" { 150_000 } else { 0 });
+        // every third cell starts with joint 6 beyond half a turn (189 degrees, well inside its +-344 degree range)
+        let mut start = cell.home;
+        if k % 3 == 2 && j6_limit > 4.0 && obstacle_class != "start-collides" { start[5] = 3.3; }
         let table_json = json!(cell.table.iter().map(|t| json!([t.0, t.1, t.2])).collect::<Vec<_>>());
         let nenv = cell.kws.body.collision_environment.len();
         let include = k % 2 == 0;
@@ -274,7 +277,7 @@ pub fn record(output: &str) {
                     if second && !(k % 3 == 1 && rep == 0 && pool == *pools.last().unwrap()) { continue; }
                     let steps_v: Vec<Pose> = if second { steps.iter().map(|p| Pose::from_parts(nalgebra::Translation3::new(p.translation.x + 0.02, p.translation.y, p.translation.z), p.rotation)).collect() } else { steps.clone() };
                     verif_hooks::start();
-                    let res = guarded(|| in_pool(pool, || planner.plan(&cell.home, &land, steps_v.clone(), &park)));
+                    let res = guarded(|| in_pool(pool, || planner.plan(&start, &land, steps_v.clone(), &park)));
                     let hooks = verif_hooks::drain();
                     let mut wins = [0usize; 3];
                     for h in &hooks {
@@ -324,12 +327,13 @@ pub fn record(output: &str) {
                                     let excess = (here.drot(a) + here.drot(b) - a.drot(b)).abs();
                                     seg_um = ((d.max(excess)) * 1e6).round() as i64;
                                 }
-                                let cost = if i == 0 { 0.0 } else { transition_costs(&path[i - 1].joints, &w.joints, &coeffs) };
+                                // (the weighted sum of the joint rotations, computed here)
+                                let cost = if i == 0 { 0.0 } else { (0..6).map(|j| (path[i - 1].joints[j] - w.joints[j]).abs() * coeffs[j]).sum::<f64>() };
                                 // distances of all pairs of bodies from brute force (the verdict is TLC's: module Collision)
                                 let pairs: Vec<Value> = scene::brute(&cell.kws.body, cell.kws.kinematics.as_ref(), &w.joints).iter()
                                     .map(|x| json!({"a": x.0, "b": x.1, "d": x.2, "touch": x.3})).collect();
                                 out.put(json!({"ev": "wp", "i": i + 1, "flags": names, "q": au6(&w.joints), "collides": cell.kws.collides(&w.joints), "pairs": pairs,
-                                    "from": au6(&cell.from), "to": au6(&cell.to), "is_start": w.joints == cell.home,
+                                    "from": au6(&cell.from), "to": au6(&cell.to), "is_start": w.joints == start,
                                     "fk_nm": fk_nm, "seg_um": seg_um, "cost_milli": ((cost / max_cost) * 1000.0).round() as i64}));
                             }
                             out.put(json!({"ev": "planend"}));
